@@ -165,7 +165,9 @@ type nlCase struct {
 	NPhase1    int              `json:"phase1_streams"`
 	NPhase2    int              `json:"phase2_streams"`
 	NLate      int              `json:"late_streams"`
-	Inflight   bool             `json:"inflight_probe"`
+	// CloseRace: the listener is closed as soon as the backlog streams' first messages are completely written by their
+	// clients, whether or not they have reached the server / the backlog yet (data in flight at the listener close)
+	CloseRace bool `json:"close_race"`
 }
 
 func nlGenCase(seed int64, idx int) nlCase {
@@ -264,6 +266,7 @@ func nlGenCase(seed int64, idx int) nlCase {
 	default:
 		cs.CloseAfter = rng.Intn(nonLate + 1)
 	}
+	cs.CloseRace = cs.NPhase2 > 0 && rng.Intn(2) == 0
 	return cs
 }
 
@@ -849,7 +852,13 @@ func (r *nlRun) closer() {
 		if p1 < r.cs.NPhase1 || int(atomic.LoadInt32(&r.nonLateDone)) < r.cs.CloseAfter {
 			return false
 		}
-		return r.cs.NPhase2 == 0 || (len(r.l.backlog) >= r.cs.NPhase2 && r.p2Delivered())
+		if r.cs.NPhase2 == 0 {
+			return true
+		}
+		if r.cs.CloseRace {
+			return r.p2Written() // listener close with stream data possibly still in flight
+		}
+		return len(r.l.backlog) >= r.cs.NPhase2 && r.p2Delivered()
 	}
 	if !waitUntil(120*time.Second, func() bool {
 		return cond() || atomic.LoadInt32(&r.watchdogFire) == 1 || atomic.LoadInt32(&r.failed) == 1
@@ -923,11 +932,22 @@ func (r *nlRun) closer() {
 	}
 }
 
-// p2Delivered: every backlog stream's first message has been written completely by its client AND has reached the server
-// side stream (one pending element per Write; nobody reads from a conn that sits in the backlog). Without this the listener
-// would be closed with stream data in flight: the drained conn's late data re-creates the stream on the server ("zombie"),
-// which arrives at the listener's per-session goroutine after Close (see nlInflightProbe), and a client still inside its
-// Write would be caught by the session teardown (known finding F2).
+// p2Delivered (cases without CloseRace): every backlog stream's first message has been written completely by its client AND
+// has reached the server side stream (one pending element per Write; nobody reads from a conn that sits in the backlog), so
+// that the backlog length at the listener close is exactly the number of backlog streams.
+// p2Written: every backlog stream's client has returned from the Write(s) of its first message (a client that is still
+// inside Write when the last conn of its session is closed would be caught by the session teardown: known finding F2).
+func (r *nlRun) p2Written() bool {
+	for _, ss := range r.streams {
+		for _, s := range ss {
+			if s.plan.Phase == 2 && atomic.LoadInt32(&s.sent) != 1 {
+				return false
+			}
+		}
+	}
+	return true
+}
+
 func (r *nlRun) p2Delivered() bool {
 	for _, ss := range r.streams {
 		for _, s := range ss {
@@ -1261,11 +1281,18 @@ func nlBucket(n int) int {
 // ---------------------------------------------------------------------------------------------
 // worker / child role / parent
 
-func nlCaseCount(tier string) int {
+func nlCaseCount(tier string) int { // general executions
 	if tier == "thorough" {
 		return 5000
 	}
 	return 100
+}
+
+func nlDirectedCount(tier string) int { // directed rounds (streams arriving around / after the listener close)
+	if tier == "thorough" {
+		return 7500
+	}
+	return 150
 }
 
 func nlWorker(tier string, seed int64, from int, reportPath string) {
@@ -1274,7 +1301,8 @@ func nlWorker(tier string, seed int64, from int, reportPath string) {
 	fenceInit()
 	can := startCanary()
 	defer can.close()
-	total := nlCaseCount(tier)
+	nGeneral := nlCaseCount(tier)
+	total := nGeneral + nlDirectedCount(tier)
 	only := -1
 	if v := os.Getenv("VERIF_NL_ONLY"); v != "" { // debugging aid only
 		only, _ = strconv.Atoi(v)
@@ -1294,7 +1322,11 @@ func nlWorker(tier string, seed int64, from int, reportPath string) {
 					col.violation(fmt.Sprintf("nl-%d", i), map[string]interface{}{"case": cs, "panic": fmt.Sprint(r)}, "panic: %v", r)
 				}
 			}()
-			clean = nlRunCase(col, cs, can)
+			if i >= nGeneral {
+				clean = nlRunDirected(col, nlGenDirCase(seed, i-nGeneral), can)
+			} else {
+				clean = nlRunCase(col, cs, can)
+			}
 		}()
 		if os.Getenv("VERIF_NL_DEBUG") != "" {
 			col.mu.Lock()
@@ -1314,91 +1346,294 @@ func nlWorker(tier string, seed int64, from int, reportPath string) {
 			return
 		}
 	}
-	if os.Getenv("VERIF_NL_PROBE") != "" { // opt-in probe, not part of the verdict
-		nlInflightProbe(col)
-	}
 	col.flush(total, total, true)
 	_ = os.RemoveAll(sockDir())
 }
 
-// nlInflightProbe (opt-in, not judged): a stream that reaches the listener's per-session goroutine after listener.Close.
-// One conn is accepted and kept open, the listener is closed, then the client opens a second stream. The goroutine's
-// select has both cases ready (closeCh closed, backlog has room); if it picks the backlog and the application's Accept
-// loop then picks closeCh, the conn stays in the backlog with a reference on the session.
-func nlInflightProbe(col *nlCol) {
-	leaks, runs, queued := 0, 0, 0
-	for i := 0; i < 60; i++ {
-		path := filepath.Join(sockDir(), fmt.Sprintf("nlp-%d-%d.sock", os.Getpid(), i))
-		_ = os.Remove(path)
-		ln, err := Listen(path)
-		if err != nil {
-			return
+// ---------------------------------------------------------------------------------------------
+// directed scenario: streams that reach the listener's per-session goroutine around / after listener.Close
+// (defects X12b: conn queued after Close's drain stays in the backlog for ever; X12c: wg.Add racing with the returning
+// Wait panics). Variants: 0 = the late streams are opened after Close returned; 1 = they race with Close;
+// 2 = they race with the close of the last accepted conn after the listener was closed.
+
+type nlDirCase struct {
+	Round   int   `json:"round"`
+	Variant int   `json:"variant"`
+	Clients int   `json:"clients"`
+	Held    int   `json:"held_conns_per_client"`
+	Late    int   `json:"late_streams_per_client"`
+	Seed    int64 `json:"seed"`
+}
+
+func nlGenDirCase(seed int64, k int) nlDirCase {
+	rng := caseRand(seed, 1950000+k)
+	return nlDirCase{Round: k, Variant: k % 3, Clients: 1 + rng.Intn(3), Held: 1 + rng.Intn(2), Late: 1 + rng.Intn(8), Seed: rng.Int63()}
+}
+
+func nlRunDirected(col *nlCol, cs nlDirCase, can *canary) (clean bool) {
+	name := fmt.Sprintf("nl-late-%d", cs.Round)
+	rng := rand.New(rand.NewSource(cs.Seed))
+	path := filepath.Join(sockDir(), fmt.Sprintf("nld-%d-%d.sock", os.Getpid(), cs.Round))
+	_ = os.Remove(path)
+	ln, err := Listen(path)
+	if err != nil {
+		col.inconclusive(name, "Listen: "+err.Error())
+		return true
+	}
+	defer os.Remove(path)
+	l := ln.(*listener)
+	var clients, servers []*Session
+	known := map[*Session]bool{}
+	cleanup := func() {
+		for _, c := range clients {
+			c.Close()
 		}
-		l := ln.(*listener)
-		conn, err := net.Dial("unix", path)
-		if err != nil {
-			return
+		for _, c := range clients {
+			waitTeardown(c, 10*time.Second)
 		}
-		conf, _ := newTestConfig(pairOpt{bufCap: 4 << 20, initTO: 5 * time.Second})
-		cli, err := newSession(conf, conn, true)
-		if err != nil {
-			ln.Close()
-			continue
+		for _, sv := range servers {
+			sv.Close()
+			waitTeardown(sv, 10*time.Second)
 		}
-		var srv *Session
-		if !waitUntil(3*time.Second, func() bool {
-			l.mu.Lock()
-			defer l.mu.Unlock()
-			for s := range l.sessions {
-				srv = s
+	}
+	for c := 0; c < cs.Clients; c++ {
+		ok := false
+		for attempt := 0; attempt < 4 && !ok; attempt++ {
+			conn, err := net.Dial("unix", path)
+			if err != nil {
+				break
 			}
-			return srv != nil
-		}) {
-			cli.Close()
-			ln.Close()
-			continue
+			conf, _ := newTestConfig(pairOpt{bufCap: 2 << 20, initTO: 5 * time.Second})
+			cli, err := newSession(conf, conn, true)
+			if err != nil {
+				continue
+			}
+			var srv *Session
+			if !waitUntil(3*time.Second, func() bool {
+				l.mu.Lock()
+				defer l.mu.Unlock()
+				for sv := range l.sessions {
+					if !known[sv] {
+						srv = sv
+						return true
+					}
+				}
+				return false
+			}) {
+				cli.Close()
+				waitTeardown(cli, 10*time.Second)
+				col.count("client connects repeated (server handshake timed out)", 1)
+				continue
+			}
+			known[srv] = true
+			clients, servers = append(clients, cli), append(servers, srv)
+			ok = true
 		}
-		s0, _ := cli.OpenStream()
-		_, _ = s0.Write([]byte("first"))
-		c0, err := ln.Accept()
-		if err != nil {
-			continue
+		if !ok {
+			_ = ln.Close()
+			cleanup()
+			col.inconclusive(name, "a client session could not be established (server handshake time-out under load)")
+			return true
 		}
-		_ = ln.Close()
-		s1, _ := cli.OpenStream()
-		_, _ = s1.Write([]byte("second"))
-		fence()
-		time.Sleep(20 * time.Millisecond) // let the per-session goroutine run its select (probe only)
-		if len(l.backlog) > 0 {
-			queued++
+	}
+	var viol []string
+	violate := func(format string, a ...interface{}) { viol = append(viol, fmt.Sprintf(format, a...)) }
+	// held conns: accepted and kept open, they keep the sessions alive across the listener close
+	var heldStreams []*Stream
+	for _, cli := range clients {
+		for h := 0; h < cs.Held; h++ {
+			st, err := cli.OpenStream()
+			if err != nil {
+				continue
+			}
+			if _, err := st.Write([]byte("held")); err == nil {
+				heldStreams = append(heldStreams, st)
+			}
 		}
-		var got []net.Conn
-		for {
+	}
+	var held []net.Conn
+	accCh := make(chan net.Conn, 64)
+	go func() {
+		for i := 0; i < len(heldStreams); i++ {
 			c, err := ln.Accept()
 			if err != nil {
 				break
 			}
-			got = append(got, c)
+			accCh <- c
 		}
-		for _, c := range got {
+		close(accCh)
+	}()
+	deadline := time.After(30 * time.Second)
+collect:
+	for {
+		select {
+		case c, ok := <-accCh:
+			if !ok {
+				break collect
+			}
+			held = append(held, c)
+		case <-deadline:
+			_ = ln.Close()
+			col.inconclusive(name, "watchdog: the held conns did not surface")
+			return false
+		}
+	}
+	if len(held) != len(heldStreams) {
+		_ = ln.Close()
+		for _, c := range held {
 			c.Close()
 		}
-		c0.Close()
-		runs++
-		if !waitUntil(2*time.Second, func() bool { return srv.IsClosed() }) {
-			leaks++
-		}
-		s0.Close()
-		s1.Close()
-		cli.Close()
-		srv.Close()
-		waitTeardown(cli, 5*time.Second)
-		waitTeardown(srv, 5*time.Second)
-		os.Remove(path)
+		cleanup()
+		col.inconclusive(name, "held conns incomplete")
+		return true
 	}
-	col.count("probe: stream arriving after listener.Close: runs", int64(runs))
-	col.count("probe: ... conn was queued into the backlog after Close", int64(queued))
-	col.count("probe: ... session never ended although every returned conn was closed", int64(leaks))
+	// late streams
+	var lateMu sync.Mutex
+	var late []*Stream
+	var lateSent int64
+	sendLate := func(cli *Session, n int, pace bool, r *rand.Rand) {
+		for i := 0; i < n; i++ {
+			if cli.IsClosed() { // stay away from a session that is being torn down (F2)
+				return
+			}
+			st, err := cli.OpenStream()
+			if err != nil || st == nil {
+				return
+			}
+			lateMu.Lock()
+			late = append(late, st)
+			lateMu.Unlock()
+			if _, err := st.Write([]byte("late")); err == nil {
+				atomic.AddInt64(&lateSent, 1)
+			}
+			if pace && r.Intn(2) == 0 {
+				spinFor(r.Intn(3000))
+			}
+		}
+	}
+	closeListener := func() {
+		defer func() {
+			if e := recover(); e != nil {
+				violate("listener.Close panicked: %v", e)
+			}
+		}()
+		_ = ln.Close()
+	}
+	var wg sync.WaitGroup
+	heldClosed := false
+	switch cs.Variant {
+	case 0:
+		closeListener()
+		for _, cli := range clients {
+			sendLate(cli, cs.Late, false, rng)
+		}
+	case 1:
+		for i, cli := range clients {
+			wg.Add(1)
+			go func(cli *Session, sd int64) {
+				defer wg.Done()
+				sendLate(cli, cs.Late, true, rand.New(rand.NewSource(sd)))
+			}(cli, cs.Seed+int64(i))
+		}
+		spinFor(rng.Intn(20000))
+		closeListener()
+		wg.Wait()
+	default:
+		closeListener()
+		for i, cli := range clients {
+			wg.Add(1)
+			go func(cli *Session, sd int64) {
+				defer wg.Done()
+				sendLate(cli, cs.Late, true, rand.New(rand.NewSource(sd)))
+			}(cli, cs.Seed+int64(i))
+		}
+		spinFor(rng.Intn(5000))
+		for _, c := range held {
+			_ = c.Close()
+		}
+		heldClosed = true
+		wg.Wait()
+	}
+	// the application: Accept until its error, close everything it was given, close the held conns
+	after := 0
+	accDone := make(chan struct{})
+	go func() {
+		defer close(accDone)
+		for {
+			c, err := ln.Accept()
+			if err != nil {
+				return
+			}
+			after++
+			_ = c.Close()
+		}
+	}()
+	can.reset()
+	if !nlWait(accDone, 10*time.Second) {
+		if can.healthy(time.Second) {
+			violate("Accept still blocks 10 s after listener.Close")
+		} else {
+			col.inconclusive(name, "Accept did not return within 10 s (machine overloaded)")
+		}
+		col.violationOrNothing(name, cs, viol)
+		return false
+	}
+	if !heldClosed {
+		for _, c := range held {
+			_ = c.Close()
+		}
+	}
+	can.reset()
+	ended := func() bool {
+		for _, sv := range servers {
+			if !sv.IsClosed() {
+				return false
+			}
+		}
+		return true
+	}
+	if !waitUntil(10*time.Second, ended) {
+		var open []int
+		for i, sv := range servers {
+			if !sv.IsClosed() {
+				open = append(open, i)
+			}
+		}
+		if can.healthy(time.Second) {
+			violate("server sessions %v are still open 10 s after the listener was closed, Accept had returned its error and every conn it ever returned was closed; %d conns sit in the listener's backlog (streams that arrived around/after Close)",
+				open, len(l.backlog))
+		} else {
+			col.inconclusive(name, "sessions did not end within 10 s (machine overloaded)")
+		}
+	} else {
+		col.count("directed: sessions ended after late streams", int64(len(servers)))
+	}
+	// wind up: the sessions are gone (or leaked); streams of ended sessions are closed by the teardown itself
+	lateMu.Lock()
+	for _, st := range late {
+		if !st.session.IsClosed() {
+			_ = st.Close()
+		}
+	}
+	lateMu.Unlock()
+	cleanup()
+	col.count("directed: rounds", 1)
+	col.count("directed: late streams written", atomic.LoadInt64(&lateSent))
+	col.count("directed: conns handed out by Accept after Close", int64(after))
+	col.violationOrNothing(name, cs, viol)
+	col.mu.Lock()
+	col.r.Evals++
+	col.mu.Unlock()
+	if atomic.LoadInt64(&lateSent) > 0 {
+		col.nontrivial(fmt.Sprintf("late/v%d/cl=%d/held=%d/late=%d/after=%d", cs.Variant, cs.Clients, cs.Held, nlBucket(int(atomic.LoadInt64(&lateSent))), nlBucket(after)))
+	}
+	return true
+}
+
+func (k *nlCol) violationOrNothing(name string, cs interface{}, viol []string) {
+	if len(viol) > 0 {
+		k.violation(name, map[string]interface{}{"case": cs, "violations": viol}, "%s", viol[0])
+	}
 }
 
 func nlChildMain(args []string) {
@@ -1428,7 +1663,8 @@ func checkNetListener(c *checkCtx) {
 		"the error need not implement net.Error; SetDeadline/Close after Close and write deadlines are not judged")
 	c.assume("conns are closed by the goroutine that uses them; Close concurrent with a blocked Read of the same conn is not exercised")
 	c.assume("Accept after listener.Close may still hand out backlog entries; Read/Write after Close are only called while the listener's reference keeps the session alive (F2)")
-	total := nlCaseCount(c.tier)
+	nGeneral := nlCaseCount(c.tier)
+	total := nGeneral + nlDirectedCount(c.tier)
 	from := 0
 	respawns := 0
 	for from < total && respawns < 8 {
@@ -1497,6 +1733,11 @@ func checkNetListener(c *checkCtx) {
 			from = rep.Next
 		case ex.TimedOut && !finished:
 			c.inconclusiveCase(fmt.Sprintf("nl-%d", cur), "watchdog: worker process did not finish")
+			from = cur + 1
+		case cur >= nGeneral && strings.Contains(ex.Stderr, "unexpected fault address") && !strings.Contains(ex.Stderr, "panic: sync:"):
+			// a directed round lets client calls race with the end of their session on purpose; a fault inside such a call is the
+			// known teardown defect F2 (C14: share memory is unmapped under its users), not an observation about the listener
+			c.inconclusiveCase(fmt.Sprintf("nl-late-%d", cur-nGeneral), "worker died of a memory fault in a client call racing with session teardown (known finding F2, not judged here): "+truncate(nlPanicLine(ex.Stderr), 200))
 			from = cur + 1
 		case ex.Signal != "" || (ex.Exited && ex.Code != 0):
 			cs := nlGenCase(c.seed, cur)
